@@ -131,6 +131,16 @@ def gen_schema_spec(rng, max_elems=8):
                            for e in elems if rng.random() < 0.6]
     if rng.random() < 0.3:
         spec['xsi'] = True
+        if len(elems) > 1 and rng.random() < 0.6:
+            # an element that can carry an (empty) xsi:type right after an element declared with a default/fixed value
+            i = rng.randrange(1, len(elems))
+            elems[i] = {'name': elems[i]['name'], 'type': 'string', 'max': elems[i]['max'], 'min': elems[i]['min']}
+            prev = elems[i - 1]
+            if 'attr' not in prev and 'default' not in prev and TYPES[prev['type']][1] in ('int', 'Decimal', 'float', 'bool', 'lex') \
+                    and '' not in TYPES[prev['type']][3]:
+                prev['edefault'] = rng.choice([v for v in TYPES[prev['type']][3]]).strip()
+                prev['efixed'] = rng.random() < 0.3
+                prev['min'] = 1
     return spec
 
 
